@@ -287,6 +287,10 @@ func checkSchedE2E(t core.TB, rec *core.Recorder, env *gen.Env, sc *schedCase) {
 		return
 	}
 	defer os.RemoveAll(root)
+	if _, err := (&wsRun{Root: root, WS: sc.WS}).expect(env, runCfg{Sel: selection{HasEnable: true, Enable: []string{"dupSubExpr"}}, CheckTests: true, CheckGenerated: true}); err != nil {
+		rec.Reject()
+		return
+	}
 	run := func(k, procs int) (e2e.Result, []string) {
 		args := []string{"check", "-enableAll", fmt.Sprintf("-concurrency=%d", k), "./..."}
 		res := e2e.Run(bin, args, root, e2e.BaseEnv(fmt.Sprintf("GOMAXPROCS=%d", procs), "GORACE=halt_on_error=0"), 5*time.Minute)
